@@ -14,6 +14,7 @@
 package c32
 
 import (
+	"cmp"
 	"errors"
 	"fmt"
 	"math/rand"
@@ -78,14 +79,27 @@ type object interface {
 
 // ---- LockedMap ----
 
-type mapObj struct{ m util.LockedMap[string, int] }
+// K is the type of the real keys: string for the recorded random histories (default hash of a
+// string, random seed), int for the forced first-touch schedules (force.go; an int key hashes to
+// itself, so the shard slot of a key is known before the map is touched)
+type mapObj[K cmp.Ordered] struct {
+	m  util.LockedMap[K, int]
+	rk func(string) K // model key -> real key
+	mk func(K) string // real key -> model key ("" = not one of ours)
+}
+
+func newStringObj(m util.LockedMap[string, int]) *mapObj[string] {
+	return &mapObj[string]{m: m, rk: rk, mk: func(real string) string { return modelKey[real] }}
+}
 
 var mapOps = []string{"Set", "Set", "Set", "SetValue", "SetValue", "Remove", "Remove", "RemoveValue", "GetOrCreate", "GetOrCreate",
 	"SetOrRemove", "SetOrRemove", "Get", "Value", "Exists", "Traverse", "Len"}
 
-func (o *mapObj) ops() []string { return mapOps }
+func (o *mapObj[K]) ops() []string { return mapOps }
 
-func (o *mapObj) do(c *call) {
+func (o *mapObj[K]) do(c *call) {
+	rk := o.rk
+
 	hook := func() {
 		if c.hook != nil {
 			c.hook()
@@ -232,8 +246,8 @@ func (o *mapObj) do(c *call) {
 	case "Traverse":
 		r := make([]int, len(keys))
 		dup := false
-		o.m.Traverse(func(real string, v int) bool {
-			k := modelKey[real]
+		o.m.Traverse(func(real K, v int) bool {
+			k := o.mk(real)
 			for i := range keys {
 				if keys[i] == k {
 					if r[i] != 0 {
@@ -264,11 +278,11 @@ func (o *mapObj) do(c *call) {
 	}
 }
 
-func (o *mapObj) final() (int, []int) {
+func (o *mapObj[K]) final() (int, []int) {
 	mm := o.m.Map()
 	kv := make([]int, len(keys))
 	for i := range keys {
-		kv[i] = mm[rk(keys[i])]
+		kv[i] = mm[o.rk(keys[i])]
 	}
 	return o.m.Len(), kv
 }
@@ -429,7 +443,7 @@ func newObject(kind string) (object, error) {
 	if err != nil {
 		return nil, err
 	}
-	return &mapObj{m}, nil
+	return newStringObj(m), nil
 }
 
 // ---- one history ----
@@ -502,7 +516,7 @@ func (hs *hist) flush(out *h.Out, reset ev, o object) {
 func randomCall(rng *rand.Rand, o object, id int, closing bool) *call {
 	ops := o.ops()
 	c := &call{id: id, op: ops[rng.Intn(len(ops))], k: keys[rng.Intn(len(keys))], md: "-", v: 0}
-	if _, ok := o.(*mapObj); ok {
+	if _, ok := o.(*mapObj[string]); ok {
 		switch p := rng.Intn(100); {
 		case p < 3:
 			c.op = "Empty"
@@ -530,6 +544,21 @@ func randomCall(rng *rand.Rand, o object, id int, closing bool) *call {
 	return c
 }
 
+func creatingCall(rng *rand.Rand, id int) *call {
+	c := &call{id: id, k: keys[rng.Intn(len(keys))], md: "-", v: 1 + rng.Intn(maxVal)}
+	switch rng.Intn(4) {
+	case 0:
+		c.op = "SetValue"
+	case 1:
+		c.op, c.md = "Set", []string{"set", "inc"}[rng.Intn(2)]
+	case 2:
+		c.op, c.md = "GetOrCreate", "val"
+	default:
+		c.op, c.md = "SetOrRemove", []string{"set", "inc"}[rng.Intn(2)]
+	}
+	return c
+}
+
 func spin(n int) {
 	var x uint64
 	for i := 0; i < n; i++ {
@@ -551,11 +580,18 @@ func randomHistory(rng *rand.Rand, out *h.Out, idx int, kind string) error {
 	plans := make([][]*call, ng)
 	pauses := make([][]int, ng)
 	closing := rng.Intn(4) == 0
+	// every third history on a map: the goroutines begin with a creating call, all at once on the
+	// fresh object (the first touch of the shard slots happens under contention)
+	_, isMap := o.(*mapObj[string])
+	firstCreate := isMap && rng.Intn(3) == 0
 	for g := 0; g < ng; g++ {
 		n := 3 + rng.Intn(3)
 		for i := 0; i < n; i++ {
 			id++
 			c := randomCall(rng, o, id, closing)
+			if firstCreate && i == 0 {
+				c = creatingCall(rng, id)
+			}
 			if rng.Intn(2) == 0 {
 				w := rng.Intn(3000)
 				c.hook = func() {
@@ -627,7 +663,7 @@ func forcedTraverse(out *h.Out, idx int, kind string) (bool, error) {
 	if err != nil {
 		return false, err
 	}
-	mo, ok := o.(*mapObj)
+	mo, ok := o.(*mapObj[string])
 	if !ok {
 		return false, nil
 	}
@@ -686,7 +722,7 @@ func forcedLen(out *h.Out, idx int, kind string, remove bool) (bool, error) {
 	if err != nil {
 		return false, err
 	}
-	mo, ok := o.(*mapObj)
+	mo, ok := o.(*mapObj[string])
 	if !ok {
 		return false, nil
 	}
@@ -736,8 +772,11 @@ func forcedLen(out *h.Out, idx int, kind string, remove bool) (bool, error) {
 }
 
 func run(args []string) error {
+	if len(args) >= 1 && args[0] == "force" {
+		return force(h.Flags(args[1:]))
+	}
 	if len(args) < 1 || args[0] != "record" {
-		return fmt.Errorf("usage: C32 record --num N --forced N --trace f")
+		return fmt.Errorf("usage: C32 record --num N --forced N --trace f | C32 force --in cases --trace f")
 	}
 	fl := h.Flags(args[1:])
 	out, err := h.NewOut(fl["trace"])
